@@ -15,3 +15,4 @@ import TransportVerif.Props.C08
 import TransportVerif.Props.C14
 import TransportVerif.Props.C10
 import TransportVerif.Props.C11
+import TransportVerif.Props.C12
